@@ -38,9 +38,9 @@ Max(a, b) == IF a >= b THEN a ELSE b
 Keys == DOMAIN m
 
 (* ---------------- operations ---------------- *)
-PutEntry(k, s) == [t |-> "put", k |-> k, eff |-> k, s |-> s, n |-> 1, hit |-> {}]
-TombEntry(k, eff) == [t |-> "tomb", k |-> k, eff |-> eff, s |-> 0, n |-> 1, hit |-> {}]
-FillEntry(n, s, hit, top) == [t |-> "fill", k |-> top, eff |-> top, s |-> s, n |-> n, hit |-> hit]
+PutEntry(k, o, s) == [t |-> "put", k |-> k, eff |-> k, o |-> o, s |-> s, n |-> 1, hit |-> {}]
+TombEntry(k, eff) == [t |-> "tomb", k |-> k, eff |-> eff, o |-> -1, s |-> 0, n |-> 1, hit |-> {}]
+FillEntry(n, o, s, hit, top) == [t |-> "fill", k |-> top, eff |-> top, o |-> o, s |-> s, n |-> n, hit |-> hit]
 
 CountPut(c, k, s, old) ==
   [fc |-> c.fc + 1, fb |-> c.fb + s,
@@ -55,7 +55,7 @@ Put(k, o, s) ==
   /\ k \in Keys
   /\ m' = [m EXCEPT ![k] = Live(o, s)]
   /\ cnt' = CountPut(cnt, k, s, m[k])
-  /\ log' = Append(log, PutEntry(k, s))
+  /\ log' = Append(log, PutEntry(k, o, s))
   /\ UNCHANGED env
 
 Removed(k) == IF IsLive(k) THEN m[k].s ELSE 0
@@ -89,7 +89,7 @@ Fill(n, o, s, hit, top) ==
          Sum(S) == IF S = {} THEN 0 ELSE LET x == CHOOSE x \in S : TRUE IN m[x].s + Sum(S \ {x})
      IN cnt' = [fc |-> cnt.fc + n, fb |-> cnt.fb + n * s, dc |-> cnt.dc + Cardinality(over),
                 db |-> cnt.db + Sum(over), maxk |-> Max(cnt.maxk, top)]
-  /\ log' = Append(log, FillEntry(n, s, hit, top))
+  /\ log' = Append(log, FillEntry(n, o, s, hit, top))
   /\ UNCHANGED env
 
 (* Reload / Freeze: nothing may change *)
@@ -143,6 +143,13 @@ Walk(lg) ==
                              [] OTHER -> 0]
   IN [fc |-> files, dc |-> total - files, fb |-> SumF(bytes, I), db |-> SumF(dead, I),
       maxk |-> SetMax({-1} \cup {lg[i].k : i \in I})]
+
+(* what a loader that looks keys up exactly (MemDb: the sorted file, the LevelDB file) rebuilds
+   for key k: the last log entry written under k decides *)
+ExactLast(lg, k) ==
+  LET I == {i \in 1..Len(lg) : IF lg[i].t = "fill" THEN k \in lg[i].hit ELSE lg[i].k = k}
+  IN IF I = {} THEN Absent
+     ELSE LET e == lg[SetMax(I)] IN IF e.t = "tomb" THEN Deleted ELSE Live(e.o, e.s)
 
 (* ---------------- generator / model checking ---------------- *)
 Init == /\ m = [k \in 0..(NKeys - 1) |-> Absent]
